@@ -35,3 +35,27 @@ T('m13_twin_keyword_argument', ['C13'],
 T('m13_twin_inline_reversed', ['C13'],
   (A, '        all_mws = _get_all_middlewares(self.routes, self.middlewares)\n        for mw in reversed(all_mws):\n',
       '        for mw in reversed(_get_all_middlewares(self.routes, self.middlewares)):\n'))
+
+# ---- R20.l the failsafe page is handed to the response as bytes from a total encoding (F18)
+AT = 'clastic/render/ashes_templates.py'
+_F18 = ("            if isinstance(content, unicode):\n"
+        "                # context values can carry any text, including lone surrogates\n"
+        "                content = content.encode('utf-8', 'backslashreplace')\n")
+B('m20_page_text_handed_over_as_str', ['C20'], 'R20.l', (AT, _F18, ""))
+B('m20_page_text_encoded_strictly', ['C20'], 'R20.l',
+  (AT, _F18, "            if isinstance(content, unicode):\n                content = content.encode('utf-8')\n"))
+B('m20_page_text_strict_handler_named', ['C20'], 'R20.l',
+  (AT, "content.encode('utf-8', 'backslashreplace')", "content.encode('utf-8', errors='strict')"))
+B('m20_page_text_rejoined_after_encoding', ['C20'], 'R20.l',
+  (AT, "            return Response(content, status=status, mimetype=mimetype)",
+       "            return Response('%s\\n' % template.render(context), status=status, mimetype=mimetype)"))
+T('m20_twin_unconditional_encode', ['C20'],
+  (AT, _F18, "            content = content.encode('utf-8', errors='replace')\n"))
+T('m20_twin_encode_in_the_call', ['C20'],
+  (AT, _F18, ""),
+  (AT, "            return Response(content, status=status, mimetype=mimetype)",
+       "            return Response(content.encode('utf-8', 'xmlcharrefreplace'), status=status, mimetype=mimetype)"))
+T('m20_twin_named_temporary', ['C20'],
+  (AT, _F18, "            body = content.encode('utf-8', 'backslashreplace')\n"),
+  (AT, "            return Response(content, status=status, mimetype=mimetype)",
+       "            return Response(body, status=status, mimetype=mimetype)"))
